@@ -440,20 +440,24 @@ fn one(ctx: &mut Ctx, tape: &[u32]) -> Result<(), Fail> {
 
 /// libFuzzer entry: Some(message) on a violation
 pub fn fuzz_one(tape: &[u32]) -> Option<String> {
+    fuzz_case(tape).map(|(m, _)| m)
+}
+
+pub fn fuzz_case(tape: &[u32]) -> Option<(String, Value)> {
     let mut t = Tape::new(tape);
     if t.chance(1, 5) {
         let c = gen_matrix_case(&mut t)?;
         return match check_matrix(&c) {
             Ok(()) => None,
             Err(e) if e.starts_with("HARNESS") => None,
-            Err(e) => Some(e),
+            Err(e) => Some((e, c.json())),
         };
     }
     let p = gen_pair(&mut t)?;
     match check_pair(&p) {
         Ok(_) => None,
         Err(e) if e.starts_with("HARNESS") => None,
-        Err(e) => Some(e),
+        Err(e) => Some((e, p.json())),
     }
 }
 
@@ -465,7 +469,16 @@ pub fn run(ctx: &mut Ctx) {
     ctx.assumptions.push("E1 models the facade's feature switch as the `_unimock` macro variants; the facade mapping itself is observed by the E2 leg (C10)".into());
     ctx.assumptions.push("don't-cares: `no_deps` on a module, the undocumented `debug` option".into());
     let cases = ctx.n(150_000, 3_000_000);
-    run_tapes_par(ctx, 17, cases, 300, one);
+    if !run_tapes_par(ctx, 17, cases, 300, one) {
+        return;
+    }
+    crate::fuzzrun::replay_corpus(ctx, "c17_metamorphic", fuzz_case);
+    if !ctx.violations.is_empty() {
+        return;
+    }
+    if !ctx.quick() {
+        crate::fuzzrun::campaign(ctx, "c17_metamorphic", fuzz_case, 300_000);
+    }
 }
 
 pub fn replay(ctx: &mut Ctx, v: &Value) {
